@@ -167,6 +167,10 @@ def special_family():
     cyc.append({'A': T('a', inputs=[bn('missing')])})
     cyc.append({'A': T('a', inputs=[{'how': 'opt_name', 'ref': 'missing', 'default': 5}])})
     cyc.append({'A': T('a'), 'B': T('b', inputs=[bn('n::a')])})
+    for order in (['O', 'D'], ['D', 'O']):
+        tasks = {'O': T('o', inputs=[{'how': 'opt_name', 'ref': 'nope', 'default': None}]), 'D': T('d', inputs=[bn('ghost')])}
+        out.append(_mounted(tasks, 'root', 'dangling-after-optional', tasks_list=order))
+        out.append(_mounted(tasks, 'as_n', 'dangling-after-optional', tasks_list=order))
     for tasks in cyc:
         for mount in ('root', 'as_n'):
             if mount == 'as_n' and any(i['ref'].startswith('n::') for t in tasks.values() for i in t['inputs'] if isinstance(i['ref'], str)):
